@@ -87,8 +87,8 @@ var openRelax = []struct {
 }{}
 
 func c04(r *mon.Run) {
-	maxLen := tierPick(r, 4, 5)
-	r.Rule = "every sequence of 1..L lexemes over a 26-lexeme alphabet covering every token type (L=4 quick, 5 thorough; + a seeded sample of length 6 and mutated grammatical spellings up to length 40), joined by single spaces, is given to Compile and to the ABNF recogniser ref.Accepts; " +
+	maxLen := tierPick(r, 4, 6)
+	r.Rule = "every sequence of 1..L lexemes over a 26-lexeme alphabet covering every token type (L=4 quick, 6 thorough: 321 272 406 sequences; + mutated grammatical spellings up to 36 tokens), joined by single spaces, is given to Compile and to the ABNF recogniser ref.Accepts; " +
 		"every grammatical sequence additionally in its no-space and mixed-whitespace spelling (accept/reject and AST must not change). Non-trivial = distinct grammatical sequences + distinct ungrammatical sequences at edit distance 1 from a grammatical one."
 	r.Exhaustive = true
 	r.Floor = 1000
